@@ -14,6 +14,7 @@ structure St where
   before : Store := {}
   ws : List SW := []
   ok : Bool := false
+  saved : Sync.FNode := {}     -- the cache files: the caches as of the last clean stop (`restart`)
   deriving Inhabited
 
 def insertSorted (x : Nat) : List Nat → List Nat
@@ -34,16 +35,19 @@ def execOf (ws : List SW) : String :=
   let l := ws.filterMap fun w => match w with | .saveBlock h b => some s!"{h}:{b.data.txs.length}" | _ => none
   if l.isEmpty then "-" else String.intercalate "," l
 
-def observe (n : Sync.FNode) (ws : List SW) (isStart : Bool) : String :=
+def observe (n : Sync.FNode) (ws : List SW) (exec : List SW) : String :=
   let h := n.store.height
   let disk := match n.store.state with | some s => Drv.Prod.showState s | none => "none"
-  let ex := if isStart then "-" else execOf ws
-  s!"height={h} disk={disk} mem={Drv.Prod.showState n.lastState} hc={natList (sortNats (n.hdrCache.map (·.1)))} dc={natList (sortNats (n.datCache.map (·.1)))} seenH={shortHashes n.seenH} seenD={shortHashes n.seenD} exec={ex} alive={if n.alive then 1 else 0} w={Drv.Prod.showWs ws} head=[{Drv.Prod.showBlock n.store h}]"
+  s!"height={h} disk={disk} mem={Drv.Prod.showState n.lastState} hc={natList (sortNats (n.hdrCache.map (·.1)))} dc={natList (sortNats (n.datCache.map (·.1)))} seenH={shortHashes n.seenH} seenD={shortHashes n.seenD} exec={execOf exec} alive={if n.alive then 1 else 0} w={Drv.Prod.showWs ws} head=[{Drv.Prod.showBlock n.store h}]"
 
 def startFull (s : St) (disk : Store) (caches : Sync.FNode) : St × String :=
-  match Sync.start s.scfg disk caches with
+  -- `NewManager` and the start of `SyncLoop` (which applies what the loaded caches already allow)
+  match Sync.boot s.scfg disk caches with
   | none => ({ s with full := { s.full with alive := false }, ok := false }, "start err")
-  | some (n, ws) => ({ s with full := n, before := disk, ws := ws, ok := true }, "start " ++ observe n ws true)
+  | some (n, ws) =>
+    -- execution calls happen only in the loop's part of the writes (`NewManager` saves the local genesis block)
+    let own := match Sync.start s.scfg disk caches with | some (_, ws0) => ws0.length | none => 0
+    ({ s with full := n, before := disk, ws := ws, ok := true }, "start " ++ observe n ws (ws.drop own))
 
 def step (s : St) (line : String) : St × String :=
   let o := parseOp line
@@ -68,7 +72,7 @@ def step (s : St) (line : String) : St × String :=
       if o.nat "h" > s.prod.store.height then (s, "no-such-block") else
       let before := s.full.store
       let (n', ws) := if o.verb = "hdr" then Sync.onHeader s.full b.sh else Sync.onData s.full b.data
-      ({ s with full := n', before := before, ws := ws }, observe n' ws false)
+      ({ s with full := n', before := before, ws := ws }, observe n' ws ws)
   | "junkdat" =>
     -- unauthenticated P2P data: the genuine metadata of block `h`, other transactions
     if !s.ok then (s, "dead") else
@@ -78,13 +82,16 @@ def step (s : St) (line : String) : St × String :=
       if o.nat "h" > s.prod.store.height then (s, "no-such-block") else
       let before := s.full.store
       let (n', ws) := Sync.onData s.full { b.data with txs := o.list "txs" }
-      ({ s with full := n', before := before, ws := ws }, observe n' ws false)
+      ({ s with full := n', before := before, ws := ws }, observe n' ws ws)
   | "restart" =>
     if !s.ok then (s, "dead") else
-    startFull s s.full.store { hdrCache := s.full.hdrCache, datCache := s.full.datCache, seenH := s.full.seenH, seenD := s.full.seenD }
+    let caches : Sync.FNode := { hdrCache := s.full.hdrCache, datCache := s.full.datCache, seenH := s.full.seenH, seenD := s.full.seenD }
+    startFull { s with saved := caches } s.full.store caches
   | "crash" =>
     if !s.ok then (s, "dead") else
-    startFull s (s.before.applyPrefix (o.nat "keep") s.ws) {}
+    -- `stale=1`: the cache files of the last clean stop are still there (an older generation of the caches)
+    if o.nat "stale" = 1 then startFull s (s.before.applyPrefix (o.nat "keep") s.ws) s.saved
+    else startFull { s with saved := {} } (s.before.applyPrefix (o.nat "keep") s.ws) {}
   | _ => (s, "bad-op")
 
 end Drv.Syn
